@@ -37,8 +37,19 @@ fn query_alphabet() -> Vec<(&'static str, QueryType)> {
         ("failing-read", QueryBuilder::select().ids(999).query().into()),
         ("failing-write", QueryBuilder::insert().edges().from("root").to(999).query().into()),
         ("reference-:7", QueryBuilder::select().ids(":7").query().into()),
+        // mutating queries that legitimately report result 0 and no elements (or nothing at all):
+        // every mutating query of an applied batch must be in the audit log whatever its result
+        ("insert-index-unused-key", QueryBuilder::insert().index("zz").query().into()),
+        ("insert-index-used-key", QueryBuilder::insert().index("k").query().into()),
+        ("remove-index", QueryBuilder::remove().index("k").query().into()),
+        ("remove-missing-id", QueryBuilder::remove().ids(999).query().into()),
+        ("remove-absent-value", QueryBuilder::remove().values("nokey").ids("root").query().into()),
+        ("reinsert-same-alias", QueryBuilder::insert().aliases("root").ids("root").query().into()),
     ]
 }
+
+/// the first CORE entries are the design's seven kinds
+const CORE: usize = 7;
 
 fn initial_queries() -> Vec<QueryType> {
     vec![QueryBuilder::insert().nodes().aliases("root").values([[("k", 0).into()]]).query().into()]
@@ -62,6 +73,16 @@ fn base_world() -> Base {
 
 /// all index lists of length <= max over 0..n
 fn batches(n: usize, max: usize) -> Vec<Vec<usize>> {
+    batches_over(&(0..n).collect::<Vec<_>>(), max)
+}
+
+fn batches_over(idx: &[usize], max: usize) -> Vec<Vec<usize>> {
+    let n = idx.len();
+    let map = |b: Vec<Vec<usize>>| -> Vec<Vec<usize>> { b.into_iter().map(|v| v.into_iter().map(|i| idx[i]).collect()).collect() };
+    map(batches_raw(n, max))
+}
+
+fn batches_raw(n: usize, max: usize) -> Vec<Vec<usize>> {
     let mut out: Vec<Vec<usize>> = vec![vec![]];
     let mut last: Vec<Vec<usize>> = vec![vec![]];
     for _ in 0..max {
@@ -268,22 +289,30 @@ pub(crate) fn run(args: &Args) -> i32 {
     }
 
     let max_len = args.tier.pick(2, 3);
-    let bs = batches(alpha.len(), max_len);
-    let mut first: Vec<Item> = vec![];
-    for ep in ["exec", "exec_mut"] {
-        for b in &bs {
-            first.push(Item { endpoint: ep, batch: b.clone() });
+    let items = |bs: &[Vec<usize>], eps: &[&'static str]| -> Vec<Item> { eps.iter().flat_map(|ep| bs.iter().map(move |b| Item { endpoint: ep, batch: b.clone() })).collect() };
+    let user_eps = ["exec", "exec_mut"];
+    let core_idx: Vec<usize> = (0..CORE).collect();
+    let bs = batches_over(&core_idx, max_len);
+    // plans: (first requests, second requests); every first request alone and followed by every second request
+    let mut plans: Vec<(&str, Vec<Item>, Vec<Item>)> = vec![];
+    {
+        // A: the seven core kinds, batches <= max_len, sequences <= 2
+        let first = items(&bs, &user_eps);
+        let mut second = first.clone();
+        if args.tier == Tier::Thorough {
+            // second request also through the admin endpoints, batches of <= 2 queries
+            let small: Vec<Vec<usize>> = bs.iter().filter(|b| b.len() <= 2).cloned().collect();
+            second.extend(items(&small, &["admin-exec", "admin-exec_mut"]));
         }
+        plans.push(("core kinds", first, second));
+        // B: all kinds (incl. the result-0 mutations), short batches, sequences <= 2
+        let all_short = batches(alpha.len(), args.tier.pick(1, 2));
+        let f = items(&all_short, &user_eps);
+        plans.push(("all kinds, short batches", f.clone(), f));
+        // C: all kinds, batches <= max_len, single requests
+        plans.push(("all kinds, single request", items(&batches(alpha.len(), max_len), &user_eps), vec![]));
     }
-    let mut second = first.clone();
-    if args.tier == Tier::Thorough {
-        // second request also through the admin endpoints, batches of <= 2 queries
-        for ep in ["admin-exec", "admin-exec_mut"] {
-            for b in bs.iter().filter(|b| b.len() <= 2) {
-                second.push(Item { endpoint: ep, batch: b.clone() });
-            }
-        }
-    }
+    let work: Vec<(usize, usize)> = plans.iter().enumerate().flat_map(|(p, pl)| (0..pl.1.len()).map(move |i| (p, i))).collect();
     // work items: one per first request (runs the length-1 sequence and all its extensions)
     let stats = Stats::default();
     let states = DistinctCounter::default();
@@ -291,17 +320,19 @@ pub(crate) fn run(args: &Args) -> i32 {
     let candidates: std::sync::Mutex<Vec<(Vec<Req>, Vec<Found>, Vec<String>)>> = std::sync::Mutex::new(vec![]);
     let w = engine::workers();
     let labs: Vec<std::sync::Mutex<Lab>> = (0..w).map(|_| std::sync::Mutex::new(Lab::new("c25", false, &pool))).collect();
-    engine::par_for(first.len(), args.seed, |wi, i| {
+    engine::par_for(work.len(), args.seed, |wi, wk| {
+        let (pi, i) = work[wk];
+        let (first, second) = (&plans[pi].1, &plans[pi].2);
         let mut lab = labs[wi].lock().unwrap();
         let r1 = make_req("usr1", &first[i], &alpha);
         let mut todo: Vec<Vec<Req>> = vec![vec![r1.clone()]];
-        for it in &second {
+        for it in second {
             let caller = if it.endpoint.starts_with("admin") { "admin" } else { "usr2" };
             todo.push(vec![r1.clone(), make_req(caller, it, &alpha)]);
         }
         for (n, seq) in todo.iter().enumerate() {
             let (found, transcript) = run_sequence(&mut lab, &base, seq, Some(&stats), Some(&states), Some(&outcomes));
-            if i == first.len() / 2 + 9 && (n == 30 || n == 75) {
+            if (pi == 0 && i == first.len() / 2 + 9 && n == 30) || (pi == 1 && i == first.len() - 3 && n == 5) {
                 report.sample(json!({"sequence": reqs_to_json(seq), "transcript": transcript}));
             }
             if !found.is_empty() {
@@ -341,9 +372,8 @@ pub(crate) fn run(args: &Args) -> i32 {
     report.set("traces_validated_against_impl", json!(stats.sequences.load(Ordering::Relaxed)));
     report.set("max_queries_per_batch", json!(max_len));
     report.set("query_alphabet", json!(alpha.iter().map(|a| a.0).collect::<Vec<_>>()));
-    report.set("batches", json!(bs.len()));
-    report.set("first_requests", json!(first.len()));
-    report.set("second_requests", json!(second.len()));
+    report.set("plans", json!(plans.iter().map(|p| json!({"plan": p.0, "first_requests": p.1.len(), "second_requests": p.2.len()})).collect::<Vec<_>>()));
+    report.set("core_batches", json!(bs.len()));
     report.set("batches_applied_2xx", json!(stats.applied.load(Ordering::Relaxed)));
     report.set("batches_failed", json!(stats.failed.load(Ordering::Relaxed)));
     report.set("failed_batches_with_a_mutation_before_the_failing_query", json!(stats.failed_with_mutation_before_failure.load(Ordering::Relaxed)));
@@ -352,7 +382,7 @@ pub(crate) fn run(args: &Args) -> i32 {
     report.set("violating_sequences", json!(cands.len()));
     report.set("confirmation_replays_on_fresh_server", json!(replays));
     report.set("exhaustive", json!(true));
-    report.set("what", json!("every batch of <= max_queries_per_batch queries over the alphabet through exec and exec_mut, every sequence of <= 2 such requests; states = distinct (content, audit log) of the database; transitions = requests executed"));
+    report.set("what", json!("plan A: every batch of <= max_queries_per_batch queries over the 7 core kinds through exec and exec_mut, every sequence of <= 2 such requests; plan B: the same over all 13 kinds with shorter batches (quick 1, thorough 2 queries); plan C: every batch of <= max_queries_per_batch queries over all 13 kinds as a single request; states = distinct (content, audit log) of the database; transitions = requests executed"));
     report.assume("database content is compared through a complete dump (all elements with values, aliases, indexes, node count); the reference for content is agdb's own DbMemory (C25 is not about the query engine)");
     report.assume("audit entries are compared by user and query kind, in order (the server records queries after result injection; timestamps ignored)");
     report.finish()
